@@ -42,7 +42,7 @@ UNCOVERED = [
 EXPLANATION = (
     "Partial. Lean theorems over exact rationals (Properties/C11.lean) carry: weights_convention for d = 2 (both "
     "orders), 3, 4 incl. reverse_is_complement, weights_sum_one / weights_total, flip_kernel_sums_one / "
-    "flip_kernel_marginal, eval_time_roundtrip, tol_separates / tol_matches, legacy_eval_times (sorted, duplicate "
+    "flip_kernel_marginal, state_prep_roundtrip / state_prep_distribution, eval_time_roundtrip, tol_separates / tol_matches, legacy_eval_times (sorted, duplicate "
     "free, in range), legacy_pipeline_total, config_recreate_idempotent. Each run ties the model to /repo by "
     "differential execution of QutipResult._weights / sampling_dist, CoherentResults with measurement errors, "
     "QutipConfig._get_legacy_evaluation_times + QutipEmulator.set_evaluation_times, QutipConfig re-creation, against "
@@ -54,7 +54,9 @@ RULE = (
     "cases = corpus/C11/*.json first, then generated per kind (weights: random kets / rational density matrices, "
     "1-4 atoms, every (dimension, measurement basis, matching) combination incl. product states that break atom "
     "symmetry; kernel: detection-error rates lattice; evaltimes: default/own relative times x durations incl. the "
-    "float-critical ones x sampling rates; config: valid and malformed default times; smoke: tiny sequences); every "
+    "float-critical ones x sampling rates; config: valid and malformed default times; stateprep: state_prep_error "
+    "lattice x 1-3 atoms (isolated / interacting), bad atoms of each run vs the recorded draws, per-run dark-atom "
+    "dynamics, V2/legacy averages vs the mixture; smoke: tiny sequences); every "
     "random choice from random.Random('C11-<seed>'); distinct = distinct case JSON; non-trivial = a state with >= 2 "
     "populated basis states / a non-zero error rate / >= 2 requested times / a valid config / a non-zero drive"
 )
